@@ -42,14 +42,15 @@ def main():
     only = [a for a in sys.argv[1:] if not a.startswith('--')]
     man = json.load(open(os.path.join(HERE, 'MANIFEST.json')))
     props = only or [c['property_id'] for c in man['checks']]
-    nseeds = {'smoke': 2, 'default': 6, 'full': 24}[mode]
+    nseeds = {'smoke': 1, 'default': 6, 'full': 24}[mode]
     runs = {'smoke': 24, 'default': 96, 'full': 160}[mode]
     jobs = []
     for prop in props:
         for s in range(nseeds):
             seed = 1000 + 7919 * s
             jobs.append((prop, seed, 'a', dict(workers=None)))
-            jobs.append((prop, seed, 'again', dict(workers=None)))
+            if mode != 'smoke':
+                jobs.append((prop, seed, 'again', dict(workers=None)))
             jobs.append((prop, seed, 'w1', dict(workers=1)))
             if mode != 'smoke' or s == 0:
                 jobs.append((prop, seed, 'a_hs', dict(workers=None, want_hs=True)))
